@@ -25,6 +25,7 @@ def loop() -> asyncio.AbstractEventLoop:
 class StubTransport:
     def __init__(self) -> None:
         self.writes: list[bytes] = []
+        self.objs: list = []  # the objects themselves (a real transport may hold on to them while the socket is congested)
         self.closed = False
         self.close_calls = 0
         self.write_types: list[type] = []
@@ -37,6 +38,7 @@ class StubTransport:
             raise exc
         self.write_types.append(type(data))
         self.writes.append(bytes(data))
+        self.objs.append(data)
 
     def close(self) -> None:
         self.close_calls += 1
